@@ -160,6 +160,24 @@ def typed_arg(r, sp, first_len):
 def gen_case(r, f, table):
     specs = table.get(f)
     args = []
+    if f in ('arrayIndexOf', 'arrayLastIndexOf', 'arrayDelete', 'arraySort', 'arrayJoin', 'mathMax', 'mathMin', 'systemCompare', 'systemIs') and r.random() < 0.35:
+        # values that are EQUAL under Python's == but different BareScript values (true / 1, false / 0, '1'), next to each other: a number must be
+        # found / ordered the same however it is spelled
+        small = [['b', True], ['b', False], ['n', 0], ['n', 1], ['s', '1'], ['z'], ['n', 1.5], ['n', 2], ['s', '']]
+        arr = ['a', [r.choice(small) for _ in range(r.randint(1, 5))]]
+        if f in ('arrayIndexOf', 'arrayLastIndexOf'):
+            args = [arr, r.choice(small)] + ([['n', r.randint(0, len(arr[1]))]] if r.random() < 0.4 else [])
+        elif f in ('mathMax', 'mathMin'):
+            args = [r.choice(small) for _ in range(r.randint(1, 4))]
+        elif f in ('systemCompare', 'systemIs'):
+            args = [r.choice(small), r.choice(small)]
+        elif f == 'arrayDelete':
+            args = [arr, ['n', r.randint(0, len(arr[1]))]]
+        elif f == 'arrayJoin':
+            args = [arr, ['s', ',']]
+        else:
+            args = [arr]
+        return {'f': f, 'args': args}
     if specs is not None and r.random() < 0.7:
         first_len = 0
         for i, sp in enumerate(specs):
